@@ -1,0 +1,50 @@
+//go:build verif
+
+package geyser
+
+// Verification hook for property C40: runs the real GameProfileRequestEvent handler of the
+// Geyser integration for one Bedrock player, with the skin lookup's HTTP client failing at
+// once (no network). Add-only, no behaviour change.
+
+import (
+	"context"
+	"errors"
+	"net"
+	"net/http"
+
+	"github.com/go-logr/logr"
+	bconfig "go.minekube.com/gate/pkg/edition/bedrock/config"
+	"go.minekube.com/gate/pkg/edition/bedrock/geyser/floodgate"
+	"go.minekube.com/gate/pkg/edition/java/profile"
+	"go.minekube.com/gate/pkg/edition/java/proto/packet"
+	"go.minekube.com/gate/pkg/edition/java/proxy"
+	"go.minekube.com/gate/pkg/gate/proto"
+)
+
+type verifC40Inbound struct{ ctx context.Context }
+
+func (f *verifC40Inbound) Protocol() proto.Protocol                { return 0 }
+func (f *verifC40Inbound) VirtualHost() net.Addr                   { return nil }
+func (f *verifC40Inbound) HandshakeIntent() packet.HandshakeIntent { return packet.LoginHandshakeIntent }
+func (f *verifC40Inbound) RemoteAddr() net.Addr                    { return nil }
+func (f *verifC40Inbound) Active() bool                            { return true }
+func (f *verifC40Inbound) Context() context.Context                { return f.ctx }
+
+type verifC40NoNetwork struct{}
+
+func (verifC40NoNetwork) RoundTrip(*http.Request) (*http.Response, error) {
+	return nil, errors.New("network disabled")
+}
+
+// VerifC40GameProfile returns the Java game profile the integration's onGameProfile handler
+// assigns to a Bedrock player with the given gamertag and XUID under usernameFormat.
+func VerifC40GameProfile(usernameFormat, gamertag string, xuid int64) profile.GameProfile {
+	pm := NewProfileManager()
+	pm.client = &http.Client{Transport: verifC40NoNetwork{}}
+	i := &Integration{log: logr.Discard(), config: &bconfig.Config{UsernameFormat: usernameFormat}, profileManager: pm}
+	gc := &GeyserConnection{BedrockData: &floodgate.BedrockData{Username: gamertag, Xuid: xuid}}
+	gc.Context = withBedrockContext(context.Background(), gc)
+	e := proxy.NewGameProfileRequestEvent(&verifC40Inbound{ctx: gc.Context}, profile.GameProfile{Name: gamertag}, false)
+	i.onGameProfile(e)
+	return e.GameProfile()
+}
